@@ -230,3 +230,24 @@ def PyFuncRaise():
         return it.path.real("residuum")
 
     return PyFunc(f, "res_func")
+
+
+@unit("C06.compute_tau", ["C06", "C13"], [SC + "newton_control.NewtonController.compute_tau", SC + "newton_control.NewtonController.tau_vals"], config={"max_paths": 200, "implicit_props": ["C06"]})
+def compute_tau(u):
+    """active-set rule: never dies from an empty reduction / failed assertion, for every ActiveSetType"""
+    names = u.enum_members("pygradflow.params.ActiveSetType")
+    k = u.path.choose_n(len(names), "active set type")
+    params = mk_params(u, active_set_type=u.enum("pygradflow.params.ActiveSetType", names[k]))
+    if names[k] == "Explicit":
+        tau = u.real("active_set_tau")
+        params.fields["active_set_tau"] = tau
+    problem = mk_problem(u)
+    ctrl = u.construct(SC + "fixed_control.FixedStepSizeController", problem, params)
+    itx = mk_iterate(u, problem, params, "it", in_box=True)
+    rho = u.real("rho")
+    u.assume(rho > 0)
+    kind, val = u.raised(lambda: u.method(ctrl, "compute_tau", itx, rho))
+    u.ensure(kind == "ok", f"compute_tau:{names[k]}:raises_nothing", desc=("" if kind == "ok" else f"escaping {val.exc!r} raised at {val.origin}"))
+    if kind == "ok" and val is not None and names[k] != "Explicit":
+        u.ensure(val > 0 if not isinstance(val, float) else val > 0, f"compute_tau:{names[k]}:tau>0")
+    u.cover("end")
